@@ -1,3 +1,4 @@
+import BoolFn.Proofs.Oracle2
 import BoolFn.Proofs.BddQuant
 import BoolFn.Proofs.BddOps
 import BoolFn.Proofs.QuantET
